@@ -613,4 +613,40 @@ example : (ChainTracker.abort_streamed_block (fun ls => ls) (toGen { exTracker w
   refine ⟨rfl, ?_⟩
   rw [C13_fn_tip_time]
 
+/-! ### which watch set reaches the validator (clause "proof verifies for all watched outpoints") -/
+
+section WatchSet
+variable {VF PK BD BH CT V TM FH Key L Tx' Blk Tg Txid OP Vd : Type} [DecidableEq BH] [DecidableEq Tg] [DecidableEq CT]
+  (xh : Gen.FnTrackerC13.BlockHeader BH CT V TM → BH) (xt : Gen.FnTrackerC13.BlockHeader BH CT V TM → Tg)
+  (xp : Gen.FnTrackerC13.BlockHeader BH CT V TM → Tg → Option BH) (xm : Gen.FnTrackerC13.Network → Tg)
+  (xmk : VF → Gen.FnTrackerC13.Network → PK → Vd) (xb : FH → List Nat)
+  (xv : Vd → TxoProof Tx' Blk → Nat → Gen.FnTrackerC13.BlockHeader BH CT V TM → Option BH → FH → List OP → List PK → Option Bool)
+  (xd : Nat) (xr : Tg → Tg → Gen.FnTrackerC13.Network → Rs.M Unit)
+  (t : Gen.FnTrackerC13.ChainTracker VF PK BD BH CT V TM FH Key L) (height : Nat) (ebh : Option BH)
+  (prev cur : Gen.FnTrackerC13.BlockHeader BH CT V TM × FH) (proof : TxoProof Tx' Blk)
+
+/-- **Adding a block, `validate_block` hands the validator the *forward* watches** (`get_all_forward_watches`): whatever
+    `get_all_reverse_watches` returns does not enter the outcome, for every instance of the library functions. -/
+theorem C13_fn_validate_block_add_uses_forward (rev1 rev2 fwd : List Txid × List OP) :
+    ChainTracker.validate_block xh xt xp xm rev1 fwd xmk xb xv xd xr t height ebh prev cur proof false =
+    ChainTracker.validate_block xh xt xp xm rev2 fwd xmk xb xv xd xr t height ebh prev cur proof false := by
+  unfold ChainTracker.validate_block
+  simp only [Bool.false_eq_true, if_false]
+
+/-- **Removing a block it hands it the *reverse* watches** (forward watches plus the outpoints seen spent): the forward
+    set does not enter. -/
+theorem C13_fn_validate_block_remove_uses_reverse (rev fwd1 fwd2 : List Txid × List OP) :
+    ChainTracker.validate_block xh xt xp xm rev fwd1 xmk xb xv xd xr t height ebh prev cur proof true =
+    ChainTracker.validate_block xh xt xp xm rev fwd2 xmk xb xv xd xr t height ebh prev cur proof true := by
+  unfold ChainTracker.validate_block
+  simp only [if_true]
+
+/-- the txid watches never reach the validator -/
+theorem C13_fn_validate_block_ignores_txid_watches (ra rb fa fb : List Txid) (ro fo : List OP) (b : Bool) :
+    ChainTracker.validate_block xh xt xp xm (ra, ro) (fa, fo) xmk xb xv xd xr t height ebh prev cur proof b =
+    ChainTracker.validate_block xh xt xp xm (rb, ro) (fb, fo) xmk xb xv xd xr t height ebh prev cur proof b := by
+  unfold ChainTracker.validate_block
+  cases b <;> simp only [Bool.false_eq_true, if_false, if_true]
+end WatchSet
+
 end VlsModel.Props.C13Fn
